@@ -1,6 +1,7 @@
 import ErgoVerif.Drive.Util
 import ErgoVerif.Model.Handshake
 import ErgoVerif.Model.CookieSel
+import ErgoVerif.Generated.Acceptor
 namespace ErgoVerif.Drive.Handshake
 open ErgoVerif.Drive ErgoVerif.Handshake
 
@@ -118,6 +119,11 @@ def line (s : String) : String :=
     | some cJ, some cA, some idf =>
       let r := honestJoin cJ cA (.nonce 1) (.nonce 2) (.nonce 3) idf
       s!"{showRes r.resI} {showRes r.resA} {showMsgs r.toA} {showMsgs r.toI}"
+    | _, _, _ => "bad-op"
+  | ["accset", n, a, c] => match n.toNat?, a.toNat?, c.toNat? with
+    | some n, some a, some c =>
+      let st := CookieSel.setCookie (CookieSel.startAcc n a) c
+      s!"{CookieSel.handshakeCookie ErgoVerif.Gen.Acceptor.optionsReadPerConnection n st} {st.field}"
     | _, _, _ => "bad-op"
   | ["cookie", n, a, r] => match n.toNat?, a.toNat?, r.toNat? with
     | some n, some a, some r => s!"{CookieSel.acceptorCookie n a} {CookieSel.routeCookie n r}"
